@@ -29,7 +29,36 @@ def _corrupt_lang(e):
     return False
 
 
-CORRUPTORS = {"Trace_Lang": _corrupt_lang}
+def _corrupt_ctx(e):
+    if e.get("ev") == "op" and e["op"]["op"] in ("set", "get") and e["res"]["out"] == "ok":
+        e["res"]["v"] = {"t": "bool", "v": True} if e["res"]["v"].get("t") != "bool" else {"t": "nil"}
+        return True
+    return False
+
+
+STATEFUL = {"Trace_Ctx"}
+CORRUPTORS = {"Trace_Lang": _corrupt_lang, "Trace_Ctx": _corrupt_ctx}
+
+
+def _vc_lang(v):
+    if v.get("ok") and v.get("runs"):
+        r0 = v["runs"][0]
+        if isinstance(r0.get("res"), bool):
+            r0["res"] = not r0["res"]
+        else:
+            r0["out"] = "corrupted"
+        return True
+    return False
+
+
+def _vc_hist(v):
+    if v.get("res"):
+        v["res"][0]["out"] = "corrupted"
+        return True
+    return False
+
+
+VECTOR_CORRUPTORS = {"replay": _vc_lang, "replay-hist": _vc_hist}
 
 SH = dict(quick=1, thorough=8)
 
@@ -92,6 +121,19 @@ CHECKS = {
             lang("canon", "c07", 2500, 80000, ["--nctx", "1", "--depth", "3", "--mutate", "10"], shards=SH),
         ],
     ),
+    "C08": dict(
+        level="model_checking",
+        rule="every history of <= MaxLen operations (set by name / by own field / by a twin scheme's field x 3 fields x value pool "
+             "with well- and ill-typed values, get, clear, clone, take, borrow+set(+clear)+drop, setlist, execute with own/twin scheme) "
+             "over two structurally identical schemes; each finished history is replayed step by step on real contexts comparing every "
+             "result and the final projected state. Random histories of length 50 over the rich scheme are validated by Trace_Ctx.",
+        exhaustive=True,
+        assumptions=["abs(ctx) reads the context through get_field_value/get_list_matcher"],
+        stages=[
+            mc("histories", "MC_C08.tla", dict(quick="MC_C08_quick.cfg", thorough="MC_C08_thorough.cfg"), replay_cmd="replay-hist"),
+            trace("random-histories", "Trace_Ctx", ["gen-hist", "--len", "50"], 40, 1600, shards=SH),
+        ],
+    ),
     "C09": dict(
         level="model_checking",
         rule="random `in {..}` comparisons with up to 40 items (values, ranges, CIDRs, mixed families) whose endpoints are drawn "
@@ -126,6 +168,8 @@ CHECKS = {
         assumptions=["SetMatcher is the harness's list matcher (membership in named sets)"],
         stages=[
             lang("lists", "rich", 4000, 120000, ["--nctx", "6", "--depth", "2", "--listpct", "70", "--badname", "30"], shards=SH),
+            mc("histories", "MC_C08.tla", dict(quick="MC_C08_quick.cfg", thorough="MC_C08_thorough.cfg"), replay_cmd="replay-hist"),
+            trace("list-histories", "Trace_Ctx", ["gen-hist", "--len", "50", "--listpct", "25"], 30, 800, shards=SH),
         ],
     ),
 }
